@@ -71,7 +71,7 @@ def var_block(v, extra=()):
 
 
 BKW = {"harmonic": "harmonic", "linear": "linear", "walls": "harmonicWalls", "generic": "metadynamics",
-       "abmd": "abmd", "alb": "ALB"}
+       "abmd": "abmd", "alb": "ALB", "histrestraint": "histogramRestraint"}
 
 
 def bias_block(b):
@@ -93,6 +93,9 @@ def bias_block(b):
             L += ["  targetForceConstant %r" % b["tk"], "  targetNumSteps %d" % b["N"]]
     elif k == "generic":
         L += ["  hillWeight 0.125", "  hillWidth 1.0", "  newHillFrequency 3", "  useGrids off"]
+    elif k == "histrestraint":
+        L += ["  lowerBoundary -4.0", "  upperBoundary 4.0", "  width 1.0", "  gaussianSigma 1.0",
+              "  refHistogram 0.0 0.125 0.25 0.5 0.5 0.25 0.125 0.0", "  forceConstant 1.0"]
     elif k == "abmd":
         L += ["  forceConstant 1.0", "  stoppingValue 6.0"]
     elif k == "alb":
@@ -120,7 +123,8 @@ def enc_var(v):
     return [str(v["id"])] + ["1" if v.get(k, k == "value") else "0" for k in ("value", "velocity", "energy", "tforce", "aforce", "extlag")] + ["0"]
 
 
-MKIND = {"harmonic": "harmonic", "linear": "linear", "walls": "walls", "generic": "generic", "abmd": "abmd", "alb": "alb"}
+MKIND = {"harmonic": "harmonic", "linear": "linear", "walls": "walls", "generic": "generic", "abmd": "abmd", "alb": "alb",
+         "histrestraint": "histrestraint"}
 
 
 def enc_bias(b):
@@ -803,7 +807,7 @@ def gen_traj_case(r, tier):
     zvars = [v["id"] for v in vars_ if v["type"] == "z" and not v["extlag"]]
 
     def mkbias(bid):
-        kinds = ["harmonic", "harmonic", "linear", "walls", "generic", "abmd", "alb"]
+        kinds = ["harmonic", "harmonic", "linear", "walls", "generic", "abmd", "alb", "histrestraint"]
         kd = r.choice(kinds)
         b = {"id": bid, "kind": kd, "energy": r.random() < 0.7}
         if kd in ("harmonic", "linear"):
@@ -839,7 +843,7 @@ def gen_traj_case(r, tier):
             b["tk"] = 4.0
             b["N"] = r.choice([4, 8])
             b["accw"] = b["chgk"] and r.random() < 0.7
-        elif kd in ("generic", "abmd", "alb"):
+        elif kd in ("generic", "abmd", "alb", "histrestraint"):
             cand = [v["id"] for v in vars_ if v["type"] == "z"]
             if not cand:
                 return None
@@ -1383,7 +1387,8 @@ def out_scenario(c, k):
         bl += ["histogram {", "  name b%d" % b, "  colvars v0", "  outputFreq %d" % f, "}"]
     if c.get("meta"):
         bl += ["metadynamics {", "  name m0", "  colvars v0", "  hillWeight 0.125", "  hillWidth 1.0", "  newHillFrequency %d" % c["meta"]["h"],
-               "  outputFreq %d" % c["meta"]["F"], "  writeHillsTrajectory on", "  keepFreeEnergyFiles on", "}"]
+               "  outputFreq %d" % c["meta"]["F"], "  writeHillsTrajectory on", "  keepFreeEnergyFiles on"] + \
+              (["  wellTempered on", "  biasTemperature %r" % c["meta"]["wt"]] if c["meta"].get("wt") else []) + ["}"]
     L = ["echo CASE %d" % k, "natoms 2", "temperature 300", "dt 1.0", "prefix c%ds0" % k, "restartfreq %d" % c["R"], "new", "capture"]
     if c["it0"]:
         L.append("setstep %d" % c["it0"])
@@ -1489,7 +1494,8 @@ def check_out_case(run, c, k, impl_lines, scratch, model):
             en = [float.fromhex(q) for q in gm[-1].split("energy=")[1].split(",")]
             fp = [float(ln.split()[1]) for ln in open(lastp) if ln.split() and not ln.startswith("#")]
             mx = max(en)
-            wp = [mx - e_ for e_ in en]
+            scale = (c["meta"]["wt"] + 300.0) / c["meta"]["wt"] if c["meta"].get("wt") else 1.0     # (T_bias + T)/T_bias
+            wp = [(mx - e_) * scale for e_ in en]
             run.dist("oracle:meta-pmf-vs-grid")
             if len(fp) != len(wp) or any(abs(a - b) > 1e-12 * max(1.0, abs(mx)) for a, b in zip(fp, wp)):
                 run.violation("outfiles:meta-pmf-content", "the free-energy file of step %d differs from max(E) - E of the tabulated hills energy "
@@ -1592,7 +1598,7 @@ def gen_out_case(r, tier):
     c = {"kind": "out", "R": R, "biases": biases, "it0": it0, "events": events}
     u = r.random()
     if u < 0.35:
-        c["meta"] = {"h": r.choice([1, 2, 3]), "F": r.choice([0, 2, 3, 4])}
+        c["meta"] = {"h": r.choice([1, 2, 3]), "F": r.choice([0, 2, 3, 4]), "wt": r.choice([None, None, 300.0, 900.0])}
     elif u < 0.6:
         F = r.choice([1, 2, 3])
         c["abf"] = {"F": F, "H": F * r.choice([1, 2, 3])}
@@ -1830,6 +1836,8 @@ def acf_scenario(c, k):
     ty = c["vtype"]
     extra = ["  corrFunc on", "  corrFuncType %s" % c["type"], "  corrFuncLength %d" % c["len"], "  corrFuncStride %d" % c["stride"],
              "  corrFuncOffset %d" % c["off"], "  corrFuncNormalize %s" % ("on" if c["norm"] else "off")]
+    if c.get("outfile"):
+        extra.append("  corrFuncOutputFile c%ds0.v0.corrfunc.dat" % k)      # the default name, given explicitly
     blocks = []
     if c["cross"]:
         extra.append("  corrFuncWithColvar v1")
@@ -1869,6 +1877,8 @@ def tval(c, x):
     if c["vtype"] == "unit":
         n = math.sqrt(x[0] * x[0] + x[1] * x[1] + x[2] * x[2])
         return [x[0] / n, x[1] / n, x[2] / n]
+    if c["vtype"] == "cart":
+        return list(x) + [0.0, 0.0, 0.0]
     return x
 
 
@@ -2028,8 +2038,8 @@ def check_acf_case(run, c, k, impl_lines, scratch, model):
 
 def gen_acf_case(r, tier):
     ty = r.choice(["coordinate", "coordinate", "velocity", "coordinate_p2"])
-    vtype = r.choice(["vec", "unit"]) if ty == "coordinate_p2" else r.choice(["z", "z", "vec", "unit", "zper"])
-    if ty == "velocity" and vtype in ("unit", "zper"):
+    vtype = r.choice(["vec", "unit"]) if ty == "coordinate_p2" else r.choice(["z", "z", "vec", "unit", "zper", "cart"])
+    if ty == "velocity" and vtype in ("unit", "zper", "cart"):
         vtype = "z"          # velocities of these types go through dist2_lgrad: not modelled
     ln = r.choice([1, 2, 3, 4])
     stride = r.choice([1, 1, 2, 3])
@@ -2058,7 +2068,8 @@ def gen_acf_case(r, tier):
         else:
             events.append(["step", val(), val() if cross else None])
     return {"kind": "acf", "type": ty, "vtype": vtype, "len": ln, "stride": stride, "off": off, "norm": r.random() < 0.6,
-            "cross": cross, "R": r.choice([R, R, 0]), "it0": it0, "dt": dt, "events": events, "post": r.random() < 0.5}
+            "cross": cross, "R": r.choice([R, R, 0]), "it0": it0, "dt": dt, "events": events, "post": r.random() < 0.5,
+            "outfile": r.random() < 0.3}
 
 
 # ------------------------------------------------------------------ fixed scenarios (witnesses of the _refuted stage, kept as corpus)
